@@ -133,9 +133,11 @@ ApplyRenames(P, s, sg, ck, rp) ==
   ELSE LET o == Head(P)[1]
            n == Head(P)[2]
        IN IF HasSrc(s, o)
-          THEN ApplyRenames(Tail(P),
-                 [[s EXCEPT ![n] = s[o]] EXCEPT ![o] = NoSrc],    \* if o = n the source disappears: see RenameOntoItself
-                 [[sg EXCEPT ![n] = IF RenameMovesSignature THEN sg[o] ELSE SigOf(n, s[o])] EXCEPT ![o] = NoSig],
+          THEN \* remove the old entries first, then insert the new ones: a rename of a module onto itself
+               \* (o = n) re-parses it and rebuilds its signature, it does not delete it
+               ApplyRenames(Tail(P),
+                 [[s EXCEPT ![o] = NoSrc] EXCEPT ![n] = s[o]],
+                 [[sg EXCEPT ![o] = NoSig] EXCEPT ![n] = IF RenameMovesSignature THEN sg[o] ELSE SigOf(n, s[o])],
                  ck \ {o}, rp \cup {n})
           ELSE ApplyRenames(Tail(P), s, sg, ck \ {o}, rp)
 
@@ -161,8 +163,8 @@ Functions2(D) == UNION { [S -> Contents] : S \in { {a, b} : a, b \in D } }
 
 Next ==
   \/ \E U \in Functions2(Writable) : Update(U)
-  \/ \E o, n \in Writable : o # n /\ Rename(<< <<o, n>> >>)
-  \/ \E o1, n1, o2, n2 \in Writable : o1 # n1 /\ o2 # n2 /\ o1 # o2 /\ Rename(<< <<o1, n1>>, <<o2, n2>> >>)
+  \/ \E o, n \in Writable : Rename(<< <<o, n>> >>)                          \* including o = n
+  \/ \E o1, n1, o2, n2 \in Writable : o1 # o2 /\ Rename(<< <<o1, n1>>, <<o2, n2>> >>)
   \/ \E S \in (SUBSET Writable) \ {{}} : Remove(S)
 
 Spec == Init /\ [][Next]_vars
